@@ -2,7 +2,7 @@
 import ast
 
 from ..absint import Interp
-from ..astutil import FuncTree, dominates
+from ..astutil import inline_temporaries, FuncTree, dominates
 from ..common import norm_stmt, site_id
 from ..deps import names_in, base_name, index_names, dep_edges, closure
 from ..effects import writes
@@ -337,7 +337,9 @@ def run(p, report, tier):
     report.analysed["entities"] = [f"{c.name}.{f.name}" for c, f in ents]
     for ci, f in ents:
         ent = f"{ci.name}.{f.name}"
-        fnode = f.node
+        # cached parameters (`w = self.w`), hoisted invariants and named
+        # guards (`budget_left = u / w < budget`) are substituted back first
+        fnode = inline_temporaries(f.node)
         L = instance_loop(fnode)
         if L is None:
             report.add("R4.1", ent, "per-instance loop", f"{f.file}:{fnode.lineno}", False,
